@@ -3,6 +3,7 @@
 package main
 
 import (
+	"sync/atomic"
 	"bufio"
 	"encoding/hex"
 	"encoding/json"
@@ -100,6 +101,10 @@ func Exec(line string) string {
 	if !ok {
 		return "unknown-op"
 	}
+	if timeouts >= maxTimeouts {
+		// generators that call Exec themselves must not pile up more abandoned goroutines
+		return "skipped"
+	}
 	done := make(chan string, 1)
 	go func() { done <- guard(func() string { return fn(parseFields(rest)) }) }()
 	select {
@@ -128,11 +133,14 @@ func (c *Ctx) Case(kind, op, args string, nontrivial bool) string {
 	if strings.ContainsAny(line, "\n\t") {
 		panic("case line contains separator")
 	}
+	lastProgress.Store(time.Now().UnixNano())
 	if timeouts >= maxTimeouts {
 		c.skipped++
 		return "skipped"
 	}
+	lastLine.Store(line)
 	expected := Exec(line)
+	lastProgress.Store(time.Now().UnixNano())
 	fmt.Fprintf(c.w, "%s\t%s\t%s\n", kind, line, expected)
 	c.evals++
 	c.count[kind+":"+op]++
@@ -215,6 +223,19 @@ func guard(f func() string) (out string) {
 
 type areaFn func(c *Ctx)
 
+// Watchdog for library calls made by the generators themselves (outside Exec's per-op time-out):
+// when no case has been produced for `stall` seconds the run is closed with one Direct line
+// `harness.stalled` whose outcome the Lean driver never predicts, so the check reports a violation
+// (the library did not return) instead of hanging.
+var (
+	lastProgress atomic.Int64
+	lastLine     atomic.Value
+)
+
+func init() {
+	ops["harness.stalled"] = func(f Fields) string { return "stalled" }
+}
+
 var areas = map[string]areaFn{}
 
 func main() {
@@ -224,6 +245,7 @@ func main() {
 	tier := flag.String("tier", "quick", "quick|thorough")
 	out := flag.String("out", "", "output directory")
 	replay := flag.String("lines", "", "file of `kind<TAB>case line` to execute instead of generating")
+	stall := flag.Int("stall", 240, "seconds without a new case after which the run is closed as stalled")
 	flag.Parse()
 	lines := *replay
 	fn, ok := areas[*area]
@@ -272,9 +294,36 @@ func main() {
 	}
 	c := &Ctx{Area: *area, Rng: NewRng(*seed), N: *n, Tier: *tier, w: bufio.NewWriterSize(f, 1<<20),
 		count: map[string]int{}, dist: map[string]map[string]int{}, seen: map[string]bool{}, Replay: *replay}
+	finish := func() {
+		c.w.Flush()
+		f.Close()
+		writeStats(c, *out)
+		os.Exit(0) // abandoned goroutines must not keep the process alive
+	}
+	lastProgress.Store(time.Now().UnixNano())
+	lastLine.Store("")
+	go func() {
+		for {
+			time.Sleep(2 * time.Second)
+			if time.Since(time.Unix(0, lastProgress.Load())) > time.Duration(*stall)*time.Second {
+				// the main goroutine is stuck inside the library: it does not touch c any more
+				last, _ := lastLine.Load().(string)
+				if len(last) > 400 {
+					last = last[:400]
+				}
+				last = strings.NewReplacer(" ", "_", "\t", "_").Replace(last)
+				fmt.Fprintf(c.w, "%s\tharness.stalled area=%s after=%s\tstalled\n", Direct, *area, last)
+				c.evals++
+				c.count[Direct+":harness.stalled"]++
+				finish()
+			}
+		}
+	}()
 	fn(c)
-	c.w.Flush()
-	f.Close()
+	finish()
+}
+
+func writeStats(c *Ctx, out string) {
 	st := map[string]any{
 		"evaluations":            c.evals,
 		"distinct":               len(c.seen),
@@ -286,6 +335,5 @@ func main() {
 		"skipped_after_timeouts": c.skipped,
 	}
 	js, _ := json.MarshalIndent(st, "", " ")
-	_ = os.WriteFile(filepath.Join(*out, "stats.json"), js, 0o644)
-	os.Exit(0) // abandoned goroutines must not keep the process alive
+	_ = os.WriteFile(filepath.Join(out, "stats.json"), js, 0o644)
 }
